@@ -189,7 +189,9 @@ struct col_data_impl< std::tuple<N, PRng, CRng, VRng> > {
     typedef typename std::decay<decltype(std::declval<CRng>()[0])>::type col_type;
     typedef const col_type* type;
     static type get(const Matrix &A) {
-        return &std::get<2>(A)[0];
+        // A matrix without stored entries has empty col/val ranges
+        // that may not be indexed.
+        return nonzeros_impl<Matrix>::get(A) ? &std::get<2>(A)[0] : nullptr;
     }
 };
 
@@ -199,7 +201,7 @@ struct val_data_impl< std::tuple<N, PRng, CRng, VRng> > {
     typedef typename std::decay<decltype(std::declval<VRng>()[0])>::type val_type;
     typedef const val_type* type;
     static type get(const Matrix &A) {
-        return &std::get<3>(A)[0];
+        return nonzeros_impl<Matrix>::get(A) ? &std::get<3>(A)[0] : nullptr;
     }
 };
 
